@@ -62,6 +62,7 @@ global %1
 ;;;;;;;;;;;;;;;;;;;;;;;;;;;;;;;;;;;;;;;;;;;;;;;;;;;;;;;;;;;;;;;;;;;;;;;;
 %define	file_start	rdi
 %define file_length	rsi
+%define file_length_d	esi
 %define	histogram	rdx
 %define rfc_lookup	r9
 %define	f_i		r10
@@ -268,6 +269,8 @@ isal_update_histogram_ %+ ARCH %+ :
 %ifnidn	histogram, arg2
 	mov	histogram, arg2
 %endif
+	;; length is a 32-bit int: the upper half of its register is unspecified
+	movsxd	file_length, file_length_d
 	mov	f_i, 0
 	cmp	file_length, 0
 	je	exit_ret	; If nothing to do then exit
